@@ -11,7 +11,8 @@ RULE = (
     "Hypothesis draws a pose type and 3 poses, a point and a boxplus increment (|rot| <= 1, boundary included) from value "
     "strategies covering all signs, w<0, w=0, 180-degree rotations, angles on both sides of +-pi and translations up to 1e6; "
     "each law is compared with an independent Hamilton-product / homogeneous-matrix model. Non-trivial = at least one operand "
-    "has a component outside the repository suite's sampling box [0,1)^k; distinct = hash of the drawn case."
+    "has a component outside the repository suite's sampling box [0,1)^k; distinct = hash of the drawn case. History per case: results held across later calls, "
+    "and every operation repeated after the operand was edited in place (a unit quaternion written by slice assignment with no other call; a non-unit one followed by normalize())."
 )
 BUDGET = {"quick": 16 * 5000, "thorough": 16 * 100000}
 TOLERANCES = {
@@ -299,26 +300,38 @@ def check(case, ctx):
 
     # ---- history: a pose is an ndarray and may legitimately be modified in place (normalize() does); results must
     #      follow the current contents (no value cached on the instance by an earlier call)
-    a2 = a.copy()
-    _ = a2.inverse, a2 + b, a2 - b, a2 + pt
-    arr = np.asarray(a2)
-    arr[0] = arr[0] * 0.5 + 1.25
-    if k == "se3":
-        # a DIFFERENT rotation, written by plain slice assignment, then (as the library's users do) normalize()
-        arr[3:] = np.asarray(c)[3:] * 2.0
-        a2.normalize()
-    elif k == "se2":
-        arr[2] = -0.5 * arr[2] + 0.25
-    ra2 = gs.stored(a2)
-    S2 = max(S_, abs(ra2[0]))
-    if _cmp_pose(ctx, "stale-after-in-place-change", "inverse after in-place change", k, a2.inverse, R.inv(k, ra2), S2, 2):
-        return
-    if _cmp_pose(ctx, "stale-after-in-place-change", "a+b after in-place change", k, a2 + b, R.mul(k, ra2, rb), S2, 2):
-        return
-    if _cmp_pose(ctx, "stale-after-in-place-change", "a-b after in-place change", k, a2 - b, R.ominus(k, ra2, rb), S2, 4):
-        return
-    if ctx.check_close("stale-after-in-place-change", "a+point after in-place change", gs.stored(a2 + pt), [R.val(x) for x in R.act(k, ra2, rpt)], 1e-11 * (1 + S2) * 2):
-        return
+    for variant in (0, 1):
+        a2 = a.copy()
+        _ = a2.inverse, a2 + b, a2 - b, a2 + pt
+        arr = np.asarray(a2)
+        arr[0] = arr[0] * 0.5 + 1.25
+        if k == "se3":
+            qc = np.array(np.asarray(c)[3:], dtype=np.float64)
+            if variant == 0:
+                # a DIFFERENT unit quaternion written by plain slice assignment and nothing else (no normalize() call
+                # that a cache could hook into) - round 9, C09-l
+                arr[3:] = qc / np.sqrt(qc.dot(qc))
+            else:
+                # a different rotation, written by plain slice assignment, then (as the library's users do) normalize()
+                arr[3:] = qc * 2.0
+                a2.normalize()
+        elif k == "se2":
+            arr[2] = -0.5 * arr[2] + 0.25 if variant else 0.5 * arr[2] - 0.125
+        elif variant == 0:
+            continue
+        ra2 = gs.stored(a2)
+        S2 = max(S_, abs(ra2[0]))
+        tag = " after in-place change" + ("" if variant else " (no normalize)")
+        if _cmp_pose(ctx, "stale-after-in-place-change", "inverse" + tag, k, a2.inverse, R.inv(k, ra2), S2, 2):
+            return
+        if _cmp_pose(ctx, "stale-after-in-place-change", "a+b" + tag, k, a2 + b, R.mul(k, ra2, rb), S2, 2):
+            return
+        if _cmp_pose(ctx, "stale-after-in-place-change", "a-b" + tag, k, a2 - b, R.ominus(k, ra2, rb), S2, 4):
+            return
+        if ctx.check_close("stale-after-in-place-change", "a+point" + tag, gs.stored(a2 + pt), [R.val(x) for x in R.act(k, ra2, rpt)], 1e-11 * (1 + S2) * 2):
+            return
+        if _cmp_pose(ctx, "stale-after-in-place-change", "b+a" + tag, k, b + a2, R.mul(k, rb, ra2), S2, 2):
+            return
 
     # ---- operands untouched -----------------------------------------------------------------------
     if (gs.bits(a), gs.bits(b), gs.bits(c), gs.bits(pt)) != (a0, b0, c0, pt0):
